@@ -934,6 +934,16 @@ func (c *FnCtx) contractMods(fc *FuncContract, key string, ms *modSet) {
 		}
 		if strings.HasPrefix(m, "allmaps(") && strings.HasSuffix(m, ")") {
 			inner := strings.TrimSuffix(strings.TrimPrefix(m, "allmaps("), ")")
+			if strings.HasPrefix(inner, "\"") {
+				if t := c.e.resolveGoType(strings.Trim(inner, "\""), c.e.pkgs[fc.DefPkg], token.NoPos); t != nil {
+					if mt, ok := t.Underlying().(*types.Map); ok {
+						ks, vs := d.sortOf(mt.Key()), d.sortOf(mt.Elem())
+						ms.heap["MD:"+mapTypeName(mt)] = arraySort(sV, arraySort(ks, sBool))
+						ms.heap["MV:"+mapTypeName(mt)] = arraySort(sV, arraySort(ks, vs))
+						continue
+					}
+				}
+			}
 			if mt := c.designatorMapType(inner, fc, key, pkgT); mt != nil {
 				ks, vs := d.sortOf(mt.Key()), d.sortOf(mt.Elem())
 				ms.heap["MD:"+mapTypeName(mt)] = arraySort(sV, arraySort(ks, sBool))
@@ -996,6 +1006,16 @@ func (c *FnCtx) designatorStruct(base string, fc *FuncContract, key string, pkgT
 		if n := c.e.findNamedStruct(parts[0], pkgT); n != nil {
 			t = n
 		}
+	}
+	if t == nil && len(parts) >= 2 && fc.DefPkg != "" {
+		// pkgalias.Type
+		func() {
+			defer func() { recover() }()
+			if rt := c.e.resolveGoType(parts[0]+"."+parts[1], c.e.pkgs[fc.DefPkg], token.NoPos); rt != nil {
+				t = rt
+				parts = parts[1:]
+			}
+		}()
 	}
 	if t == nil {
 		return nil
